@@ -1,6 +1,7 @@
 //! Verification harness for jsinger67/scnr: binds the TLA+ specification in /verif/spec to the
 //! real code. Sub-commands are documented in /verif/DESIGN.md section 4.
 
+mod ttmap;
 mod ast;
 mod classes;
 mod dot;
@@ -41,6 +42,7 @@ fn main() {
         "retrace" => record::main_retrace(&args[2..]),
         "dump" => dump::main(&args[2..]),
         "dotcheck" => dot::main(&args[2..]),
+        "dotparse" => dot::parse_main(&args[2..]),
         "serde" => serde_check::main(&args[2..]),
         "classes" => classes::main(&args[2..]),
         "threads" => threads::main(&args[2..]),
